@@ -20,6 +20,115 @@ def need(m, what):
     return m
 
 
+# ---- shape of the three ticket claims of barrier_algorithm_base::arrive -----------------------------------------
+# The claims are the branches of ONE if / else-if chain inside the scan loop:
+#   if (current == last_node && (current_expected & 1)) { <claim old -> full: "1 in 1"> }
+#   else if (<claim old -> half: "1 in 2">) { return false; }
+#   else if (expect == half_step) { <claim half -> full: "2 in 2"> }
+# Each claim must be ONE atomic read-modify-write (compare_exchange_strong) for the model's step to be one step; a
+# claim written as a separate load (or a comparison with a value read earlier) and store is a different algorithm
+# (two arrivals can both win the ticket).  The flags go to coq/Gen/GenBarrier.v and select the step shape of
+# Model/BarrierTree.v (treex_step); the proofs go through only for compare_exchange.
+def _strip(c):
+    c = re.sub(r'//[^\n]*', '', c)
+    c = re.sub(r'/\*.*?\*/', '', c, flags=re.S)
+    # hook lines are add-only and guarded: drop every PIKA_VERIF block and other preprocessor lines
+    c = re.sub(r'#\s*if\s+defined\(PIKA_VERIF\).*?#\s*endif', '', c, flags=re.S)
+    c = re.sub(r'^\s*#[^\n]*$', '', c, flags=re.M)
+    return c
+
+
+def _match(c, i, op, cl):
+    """c[i] == op: index just behind the matching cl"""
+    assert c[i] == op
+    d = 0
+    for j in range(i, len(c)):
+        if c[j] == op:
+            d += 1
+        elif c[j] == cl:
+            d -= 1
+            if d == 0:
+                return j + 1
+    raise TieError('C09 translator: unbalanced %s in barrier_algorithm_base::arrive' % op)
+
+
+def _skip_ws(c, i):
+    while i < len(c) and c[i].isspace():
+        i += 1
+    return i
+
+
+def _statement(c, i):
+    """one statement starting at c[i]: a block or everything up to the next ';' at depth 0"""
+    i = _skip_ws(c, i)
+    if c[i] == '{':
+        return _match(c, i, '{', '}')
+    d = 0
+    for j in range(i, len(c)):
+        if c[j] in '({':
+            d += 1
+        elif c[j] in ')}':
+            d -= 1
+        elif c[j] == ';' and d == 0:
+            return j + 1
+    raise TieError('C09 translator: statement without end in barrier_algorithm_base::arrive')
+
+
+def claim_branches(c):
+    c = _strip(c)
+    m = need(re.search(r'bool\s+barrier_algorithm_base::arrive\s*\(', c), 'barrier_algorithm_base::arrive')
+    b0 = c.index('{', _match(c, m.end() - 1, '(', ')'))
+    body = c[b0:_match(c, b0, '{', '}')]
+    heads = [x for x in re.finditer(r'\bif\s*\(\s*current\s*==\s*last_node\b', body)]
+    if len(heads) != 1:
+        raise TieError('C09 translator: expected exactly one `if (current == last_node && ...)` ticket-claim chain in arrive(), found %d' % len(heads))
+    i = body.index('(', heads[0].start())
+    branches = []
+    while True:
+        e = _match(body, i, '(', ')')
+        cond = body[i:e]
+        s_end = _statement(body, e)
+        branches.append((cond, body[e:s_end]))
+        j = _skip_ws(body, s_end)
+        if not body.startswith('else', j):
+            break
+        j = _skip_ws(body, j + 4)
+        if not re.match(r'if\b', body[j:]):
+            raise TieError('C09 translator: the ticket-claim chain of arrive() has a plain `else` branch (unknown shape)')
+        i = _skip_ws(body, j + 2)
+        if body[i] != '(':
+            raise TieError('C09 translator: malformed else-if in the ticket-claim chain')
+    if len(branches) != 3:
+        raise TieError('C09 translator: the ticket-claim chain of arrive() has %d branches, the model has 3 (1 in 1, 1 in 2, 2 in 2)' % len(branches))
+    if not re.search(r'current_expected\s*&\s*1', branches[0][0]):
+        raise TieError('C09 translator: first branch of the ticket-claim chain is not the odd-last-node test')
+    return branches
+
+
+def claim_shape(text, target, what):
+    """True: one compare_exchange_strong(..., <target>, ...) and no plain store; False: no compare_exchange, a store of
+    <target> (after a load / a comparison); anything else: TieError"""
+    cas = re.findall(r'\.\s*compare_exchange_(strong|weak)\s*\(\s*([A-Za-z_0-9]+)\s*,\s*([A-Za-z_0-9]+)', text)
+    stores = re.findall(r'\.\s*store\s*\(\s*([A-Za-z_0-9]+)', text) + re.findall(r'[^=!<>]=\s*(half_step|full_step)\s*;', text)
+    rmw = re.findall(r'\.\s*(exchange|fetch_add|fetch_sub|fetch_or|fetch_and|fetch_xor)\s*\(', text)
+    if len(cas) == 1 and cas[0][0] == 'strong' and cas[0][2] == target and not stores and not rmw:
+        return True
+    if not cas and not rmw and len(stores) == 1 and stores[0] == target:
+        return False
+    raise TieError('C09 translator: ticket claim "%s" has an unknown shape (compare_exchange: %s, stores: %s, other RMW: %s); the model knows '
+                   'compare_exchange_strong(expect, %s) and load; store(%s)' % (what, cas, stores, rmw, target, target))
+
+
+def claim_flags(c):
+    br = claim_branches(c)
+    last = claim_shape(br[0][0] + br[0][1], 'full_step', 'old -> full on the unpaired last node (1 in 1)')
+    first = claim_shape(br[1][0] + br[1][1], 'half_step', 'old -> half (1 in 2)')
+    if not re.search(r'==\s*half_step', br[2][0]):
+        raise TieError('C09 translator: third branch of the ticket-claim chain does not test for half_step')
+    second = claim_shape(br[2][0] + br[2][1], 'full_step', 'half -> full (2 in 2)')
+    return last, first, second
+
+
 @gen.generator
 def gen_barrier():
     h = gen.read(BARRIER_HPP)
@@ -34,6 +143,8 @@ def gen_barrier():
     pub = int(need(re.search(r'phase\.store\(\s*old_phase\s*\+\s*(\d+)', h), 'phase.store(old_phase + k)').group(1))
     phase0 = int(need(re.search(r',\s*phase\((\d+)\)', h), 'barrier phase initial value').group(1))
     need(re.search(r'count\s*=\s*\(expected\s*\+\s*1\)\s*>>\s*1', c), 'state array size (expected + 1) >> 1')
+    c_last, c_first, c_second = claim_flags(c)
+    cb = lambda b: 'true' if b else 'false'
     txt = ('(* GENERATED by tools/genmods/c09.py from %s and %s - do not edit *)\n'
            'From Coq Require Import NArith.\n'
            'Definition phase_bits : N := %d%%N.\n'
@@ -42,9 +153,15 @@ def gen_barrier():
            'Definition half_inc : N := %d%%N.\n'
            'Definition full_inc : N := %d%%N.\n'
            'Definition publish_inc : N := %d%%N.\n'
-           'Definition phase_init : N := %d%%N.\n') % (BARRIER_HPP, BARRIER_CPP, WIDTH[ty], slots, init, half, full, pub, phase0)
+           'Definition phase_init : N := %d%%N.\n'
+           '(* ticket claims of barrier_algorithm_base::arrive: true = one compare_exchange_strong, false = load; store *)\n'
+           'Definition claim_last_is_cas : bool := %s.\n'
+           'Definition claim_first_is_cas : bool := %s.\n'
+           'Definition claim_second_is_cas : bool := %s.\n') % (BARRIER_HPP, BARRIER_CPP, WIDTH[ty], slots, init, half, full, pub, phase0,
+                                                                  cb(c_last), cb(c_first), cb(c_second))
     gen.write_if_changed('GenBarrier.v', txt)
-    return {'phase_bits': WIDTH[ty], 'ticket_slots': slots, 'half_inc': half, 'full_inc': full, 'publish_inc': pub}
+    return {'phase_bits': WIDTH[ty], 'ticket_slots': slots, 'half_inc': half, 'full_inc': full, 'publish_inc': pub,
+            'claim_last_is_cas': c_last, 'claim_first_is_cas': c_first, 'claim_second_is_cas': c_second}
 
 
 @gen.generator
